@@ -433,12 +433,16 @@ fn main() {
         for e in evs { writeln!(out, "{e}").unwrap(); nev += 1; }
     }
     let base_seed = env_u64("VERIF_SEED", 0) ^ 0xC03;
-    for run in 0..runs {
+    // the last tenth (extra runs, so that the earlier ones keep their configurations): Runner runs whose HOOK CHANGES THE
+    // E-GRAPH - it adds an isolated one-slot leaf in every iteration (no rule's left side matches a lone `var`, so saturation
+    // is not affected).  What the report and the limit checks say must be true of the e-graph as the hook left it (C15n).
+    for run in 0..runs + runs / 10 {
+        let hook_mut = run >= runs;
         // every run draws from its own stream: adding a fixed run, or a new random choice inside a run, does not
         // change what the other runs do (a seeded change once escaped because the stream had moved)
         rng = StdRng::seed_from_u64(base_seed ^ (run as u64 + 1).wrapping_mul(0x9E37_79B9_7F4A_7C15));
         if std::env::var("VERIF_RW_DEBUG").is_ok() && run % 50 == 0 { eprintln!("run {run} at {:.1}s", t_start.elapsed().as_secs_f64()); }
-        let mut kind = ["manual", "runner", "eqsat"][run % 3];
+        let mut kind = if hook_mut { "runner" } else { ["manual", "runner", "eqsat"][run % 3] };
         tick(&format!("rewriting run {run}"));
         let mut start_txt = gen_term(&mut rng, if run % 2 == 0 { 3 } else { 4 });
         let k = rng.gen_range(4..=12);
@@ -506,7 +510,9 @@ fn main() {
                     let eg_dry: EGraph<A, ConstFold> = if extraction_subst { EGraph::with_subst_method::<ExtractionSubst>(ConstFold) } else { EGraph::new(ConstFold) };
                     let mut dry: Runner<A, ConstFold, IterFp, String> = Runner::new(ConstFold).with_egraph(eg_dry).with_expr(&start)
                         .with_iter_limit(iter_limit).with_node_limit(100_000)
-                        .with_hook(|r| if r.egraph.total_number_of_nodes() <= 80 { Ok(()) } else { Err("big".to_string()) });
+                        .with_hook(move |r| {
+                            if hook_mut { let k = r.iterations.len(); r.egraph.add_expr(RecExpr::parse(&format!("(var $hook{k})")).unwrap()); }
+                            if r.egraph.total_number_of_nodes() <= 80 { Ok(()) } else { Err("big".to_string()) } });
                     let rws_dry: Vec<Rewrite<A, ConstFold>> = rules2.iter().map(mk_rule).collect();
                     let mut counts = vec![dry.egraph.total_number_of_nodes()];
                     dry.run(&rws_dry);
@@ -542,9 +548,18 @@ fn main() {
                 // (a run-away saturation would otherwise make the recorder itself unbounded)
                 let hook_log: Rc<RefCell<Vec<(bool, Instant, Instant)>>> = Rc::new(RefCell::new(Vec::new()));
                 let hook_log2 = hook_log.clone();
+                // what apply_rewrites did in this iteration is read off BEFORE the hook changes the e-graph itself
+                let fp_log: Rc<RefCell<Vec<Vec<usize>>>> = Rc::new(RefCell::new(Vec::new()));
+                let fp_log2 = fp_log.clone();
+                let tracked_h = tracked.clone();
                 runner = runner.with_hook(move |r| {
                     let t_in = Instant::now();
                     std::thread::sleep(hook_sleep);
+                    if hook_mut {
+                        fp_log2.borrow_mut().push(fingerprint(&r.egraph, &tracked_h));
+                        let k = r.iterations.len();
+                        r.egraph.add_expr(RecExpr::parse(&format!("(var $hook{k})")).unwrap());
+                    }
                     let mut l = hook_log2.borrow_mut();
                     let ok = Some(l.len()) != hook_fail_at && r.egraph.total_number_of_nodes() <= 80;
                     l.push((ok, t_in, Instant::now()));
@@ -560,7 +575,8 @@ fn main() {
                     let hook_ok = hl.get(i).map(|x| x.0).unwrap_or(true);
                     if !hook_ok { hook_failed = true; }
                     let (lo, hi) = clock_bracket(&hl.iter().map(|x| (x.1, x.2)).collect::<Vec<_>>(), i, t_call, t_ret);
-                    evs.push(json!({"ev":"iter","nodes":it.data.nodes,"num_nodes_field":it.num_nodes,"fp_changed":it.data.fp != prev,"hook_ok":hook_ok,"stop":it.data.stop,"lo_ms":lo,"hi_ms":hi}));
+                    let fp_changed = match fp_log.borrow().get(i) { Some(f) if hook_mut => *f != prev, _ => it.data.fp != prev };
+                    evs.push(json!({"ev":"iter","nodes":it.data.nodes,"num_nodes_field":it.num_nodes,"fp_changed":fp_changed,"hook_ok":hook_ok,"stop":it.data.stop,"lo_ms":lo,"hi_ms":hi}));
                     prev = it.data.fp.clone();
                 }
                 let reason = reason_name(&report.stop_reason);
